@@ -766,8 +766,9 @@ def gen_cases(rng, tier):
         for to in VTS:            # the class of `to`, and the dataset of t relabelled as `to` given to the class of t
             if to != t:
                 for op in ('wrong_class', 'vt_other'):
-                    cases.append({'kind': 'malformed', 'tree': g_tree(rng, 0, 0, False, False, [t]), 'path': [],
-                                  'op': op, 'to': to, 'r': rng.randint(0, 10**6)})
+                    tr = g_tree(rng, 0, 0, False, False, [t])
+                    tr['name'] = ['1', '99X', 'n', None, 'cc']          # short terms: 420 cases
+                    cases.append({'kind': 'malformed', 'tree': tr, 'path': [], 'op': op, 'to': to, 'r': 0})
     for _ in range(n):
         cases += g_falsy(rng)
     for mode in POLY_MODES:       # closed contours with collinear / repeated stretches
